@@ -25,6 +25,9 @@ from mc.explorer import Op
 from oracles import se3
 from oracles import sp_state as sps
 
+import threading
+
+_QUIET_LOCK = threading.RLock()
 MOD = "checks.c10"
 COH = 1e-9          # coherence, relative to the platform size
 PURE = 1e-12        # plate poses across a pure query
@@ -87,8 +90,11 @@ FORCE = (1.0, 2.0, 3.0, 4.0, 5.0, -60.0)
 
 @contextlib.contextmanager
 def quiet():
-    with contextlib.redirect_stdout(io.StringIO()):
-        yield
+    # redirect_stdout is process-global; the run() below drives several explorations from threads of the parent, so only
+    # one thread at a time may be inside a redirect (otherwise the nesting breaks and stdout stays redirected)
+    with _QUIET_LOCK:
+        with contextlib.redirect_stdout(io.StringIO()):
+            yield
 
 
 @contextlib.contextmanager
@@ -274,7 +280,8 @@ class Spec:
         for mode in (1, 0):
             for k, _ in FK_LENS:
                 ops.append(Op("FK", {"lengths": k, "fk_mode": mode}, self._fk(k, mode, False)))
-        ops.append(Op("FK_reverse", {"lengths": "in", "fk_mode": 1}, self._fk("in", 1, True)))
+        for k, _ in FK_LENS:        # reversed FK with every length vector (out-of-range ones are corrected INSIDE the reversed call)
+            ops.append(Op("FK_reverse", {"lengths": k, "fk_mode": 1}, self._fk(k, 1, True)))
         for k in self.moves:
             ops.append(Op("move", k, self._move(k)))
         ops.append(Op("spinCustom", SPIN, self._spin()))
